@@ -155,6 +155,12 @@ class Writer:
         self.marks.append((len(self.out), ctx))
         self.out.append(ind + text)
 
+    def opsp(self):
+        """blank(s) around a reference operator; sometimes none at all (`a.x>b.y`, `a.x-b.y`, `ref:>t.c`)"""
+        if self.k['spaces'] == 'random' and self.rng.random() < 0.12:
+            return ''
+        return self.sp()
+
     def settings(self, items, ctx):
         """`[a, b]` possibly laid out over several lines"""
         if not items:
@@ -313,7 +319,7 @@ class Writer:
         return self.ident(t.text)
 
     def inline_ref(self, doc, r):
-        return (self.kw('ref:') + self.sp() + (self.fault('lit:refop') or r.kind) + self.sp()
+        return (self.kw('ref:') + self.opsp() + (self.fault('lit:refop') or r.kind) + self.opsp()
                 + self.table_ref(doc, r.target) + '.' + self.ident(r.col))
 
     def trailing(self, text):
@@ -495,7 +501,7 @@ class Writer:
             form = r.form
         elif form == 'random':
             form = self.rng.choice(['short', 'block'])
-        body = (self.endpoint(doc, r.t1, r.cols1) + self.sp() + (self.fault('lit:refop') or r.kind) + self.sp()
+        body = (self.endpoint(doc, r.t1, r.cols1) + self.opsp() + (self.fault('lit:refop') or r.kind) + self.opsp()
                 + self.endpoint(doc, r.t2, r.cols2))
         sett = []
         if r.on_update is not None:
